@@ -2,7 +2,6 @@
 //! no tags, lengths or encodings appear here), so that C01/C03 can be judged on
 //! the caller's value itself and not only on values obtained from the decoder.
 
-use chrono::NaiveDate;
 use refcodec::engine::{guarded, Built};
 use refcodec::val::Val;
 use std::fmt::Debug;
@@ -10,72 +9,7 @@ use zvt::feig::packets as fp;
 use zvt::packets as p;
 use zvt::{encoding, ZvtSerializer};
 
-pub trait FromVal: Sized {
-    fn from_val(v: &Val) -> Option<Self>;
-}
-/// marker: may be an element of a Vec field
-pub trait Elem {}
-
-macro_rules! from_num {
-    ($($t:ty),*) => {$(
-        impl FromVal for $t {
-            fn from_val(v: &Val) -> Option<Self> {
-                match v {
-                    Val::Num(n) => <$t>::try_from(*n).ok(),
-                    _ => None,
-                }
-            }
-        }
-    )*};
-}
-from_num!(u8, u16, u32, u64, usize);
-
-impl FromVal for String {
-    fn from_val(v: &Val) -> Option<Self> {
-        match v {
-            Val::Text(s) | Val::Hex(s) => Some(s.clone()),
-            _ => None,
-        }
-    }
-}
-impl Elem for String {}
-
-impl FromVal for Vec<u8> {
-    fn from_val(v: &Val) -> Option<Self> {
-        match v {
-            Val::Bytes(b) => Some(b.clone()),
-            _ => None,
-        }
-    }
-}
-
-impl FromVal for chrono::NaiveDateTime {
-    fn from_val(v: &Val) -> Option<Self> {
-        match v {
-            Val::DateTime(d) => NaiveDate::from_ymd_opt(d[0] as i32, d[1], d[2])?.and_hms_opt(d[3], d[4], d[5]),
-            _ => None,
-        }
-    }
-}
-
-impl<T: FromVal> FromVal for Option<T> {
-    fn from_val(v: &Val) -> Option<Self> {
-        match v {
-            Val::Opt(None) => Some(None),
-            Val::Opt(Some(b)) => T::from_val(b).map(Some),
-            _ => None,
-        }
-    }
-}
-
-impl<T: FromVal + Elem> FromVal for Vec<T> {
-    fn from_val(v: &Val) -> Option<Self> {
-        match v {
-            Val::List(items) => items.iter().map(T::from_val).collect(),
-            _ => None,
-        }
-    }
-}
+refcodec::fromval_prelude!();
 
 fn build<T>(v: &Val) -> Option<Built>
 where
